@@ -2,7 +2,9 @@ package main
 
 // C07: a sequential client while connections are lost, backends stop and come back, and the layout changes.
 //   case line:  <nnodes> <layout> # <op> ; ...
-//   ops:  q <request tokens>    kill <n>    down <n>    up <n>    lay <lo> <hi> <n>    w
+//   case line:  <nnodes> <layout> [rep=<m>,<m>..] # ...   (a replica of each master named; configured hosts too)
+//   ops:  q <request tokens>    kill <n>    down <n>    up <n>    lay <lo> <hi> <n>    w    promote <m> (the master
+//         goes down for good, its replica takes over its slots)
 //   output per request:  ok:<reply>:<node>:<first|same|new>:<r|->   or   err
 //     (node that executed; whether the connection it arrived on is the one the previous request to that node used;
 //      r = it was redirected first), then " || refresh-after-redirect=<ok|missing>"
@@ -28,6 +30,16 @@ func runC07(line string) string {
 		layout = append(layout, [3]int{lo, hi, nd})
 	}
 	cl.setLayout(layout)
+	// rep=<m>,<m>..: a replica of each master named, in that order (node indices n, n+1, ..); configured hosts as well
+	if len(f) > 2 && strings.HasPrefix(f[2], "rep=") {
+		for _, x := range strings.Split(strings.TrimPrefix(f[2], "rep="), ",") {
+			if m, err := strconv.Atoi(x); err == nil && m < n {
+				cl.mu.Lock()
+				cl.addNode(m)
+				cl.mu.Unlock()
+			}
+		}
+	}
 	var seeds []string
 	for _, nd := range cl.nodes {
 		seeds = append(seeds, nd.addr)
@@ -57,8 +69,8 @@ func runC07(line string) string {
 	waitRefresh := func(before uint64) {
 		cl.mu.Lock()
 		any := false
-		for i := 0; i < n; i++ {
-			any = any || cl.nodes[i].up
+		for _, nd := range cl.nodes {
+			any = any || nd.up
 		}
 		cl.mu.Unlock()
 		if !any || missing { // one missing refresh is reported; do not wait for the others as well
@@ -183,6 +195,30 @@ func runC07(line string) string {
 			if arg(1) < len(cl.nodes) && cl.nodes[arg(1)].up {
 				cl.replaceNode(arg(1), true)
 			}
+		case "promote":
+			// the master goes down for good and its replica (same data) takes over its slots under its own address
+			m := arg(1)
+			cl.mu.Lock()
+			rp := -1
+			for i, nd := range cl.nodes {
+				if nd.master == m && nd.up && rp < 0 {
+					rp = i
+				}
+			}
+			ok := m < len(cl.nodes) && cl.nodes[m].up && rp >= 0
+			if ok {
+				cl.nodes[rp].master = -1
+				cl.nodes[m].store = map[string]*sval{} // the data lives on in the promoted node
+				for s := 0; s < 16384; s++ {
+					if cl.owner[s] == m {
+						cl.owner[s] = rp
+					}
+				}
+			}
+			cl.mu.Unlock()
+			if ok {
+				cl.nodes[m].stop()
+			}
 		case "up":
 			if !cl.nodes[arg(1)].up && !cl.nodes[arg(1)].gone {
 				cl.nodes[arg(1)].start()
@@ -197,7 +233,7 @@ func runC07(line string) string {
 				}
 			}
 			for i, nd := range cl.nodes {
-				if i == to {
+				if i == to || nd.master >= 0 { // a replica shares its master's store
 					continue
 				}
 				for k, v := range nd.store {
@@ -239,6 +275,10 @@ func init() {
 		runLine("2 0-8000=0,8001-16383=1 # q A3 B736574 B6b31 B76 ; kill 0 ; kill 1 ; w ; q A2 B676574 B6b31 ; q A2 B676574 B6b31")
 		runLine("3 0-5000=0,5001-11000=1,11001-16383=2 # q A3 B736574 B6b31 B76 ; q A3 B736574 B6b32 B76 ; q A3 B736574 B6b35 B76 ; mv 1 ; w ; q A2 B676574 B6b31 ; q A2 B676574 B6b31 ; q A2 B676574 B6b32 ; q A2 B676574 B6b35 ; q A2 B676574 B6b32 ; q A2 B676574 B6b35")
 		runLine("2 0-8000=0,8001-16383=1 # down 1 ; down 0 ; w ; q A2 B676574 B6b31 ; up 0 ; up 1 ; w ; q A2 B676574 B6b31 ; q A3 B736574 B6b32 B76 ; q A2 B676574 B6b32")
+		// a single master fails for good and its replica takes over: the configured hosts (not the table's masters) are asked
+		runLine("1 0-16383=0 rep=0 # q A3 B736574 B6b31 B76 ; promote 0 ; w ; q A2 B676574 B6b31 ; q A2 B676574 B6b31 ; q A2 B676574 B6b31 ; q A2 B676574 B6b31")
+		// a failed master that still has its replica listed, and a layout change elsewhere: the refresh must go through
+		runLine("3 0-5000=0,5001-11000=1,11001-16383=2 rep=0 # q A3 B736574 B6b31 B76 ; down 0 ; w ; lay 5001 11000 2 ; q A2 B676574 B6b30 ; q A2 B676574 B6b30 ; q A2 B676574 B6b30")
 		// a long outage: several requests fail while the node is down; as soon as it is back the next one is served
 		{
 			var k1 []byte
@@ -276,10 +316,35 @@ func init() {
 			n := 2 + r.intn(3)
 			down := map[int]bool{}
 			moved := map[int]bool{}
+			hasRep := map[int]bool{}
+			rep := ""
+			if r.chance(1, 3) {
+				if r.chance(1, 4) {
+					n = 1 // a single master with its replica
+				}
+				var ms []string
+				for j, nj := 0, 1+r.intn(2); j < nj; j++ {
+					if m := r.intn(n); !hasRep[m] {
+						hasRep[m] = true
+						ms = append(ms, strconv.Itoa(m))
+					}
+				}
+				rep = " rep=" + strings.Join(ms, ",")
+				hist["with replicas"]++
+			}
 			var ops []string
 			for j, nj := 0, 4+r.intn(22); j < nj; j++ {
 				k := []byte("k" + strconv.Itoa(r.intn(30)))
 				switch r.intn(14) {
+				case 6:
+					if x := r.intn(n); hasRep[x] && !down[x] && !moved[x] {
+						moved[x] = true
+						hasRep[x] = false
+						ops = append(ops, fmt.Sprintf("promote %d", x), "w")
+						hist["replica promoted"]++
+						continue
+					}
+					ops = append(ops, "q "+bulkArr([]byte("get"), k).String())
 				case 0:
 					if x := r.intn(n); !moved[x] {
 						ops = append(ops, fmt.Sprintf("kill %d", x), "w")
@@ -300,7 +365,7 @@ func init() {
 						break
 					}
 				case 5:
-					if x := r.intn(n); !down[x] && !moved[x] && len(down)+len(moved) < n-1 {
+					if x := r.intn(n); !down[x] && !moved[x] && !hasRep[x] && rep == "" && len(down)+len(moved) < n-1 {
 						moved[x] = true
 						ops = append(ops, fmt.Sprintf("mv %d", x), "w")
 						hist["restart under a new address"]++
@@ -333,7 +398,7 @@ func init() {
 				}
 			}
 			hist[fmt.Sprintf("nodes=%d", n)]++
-			runLine(fmt.Sprintf("%d %s # %s", n, c03Layout(r, n), strings.Join(ops, " ; ")))
+			runLine(fmt.Sprintf("%d %s%s # %s", n, c03Layout(r, n), rep, strings.Join(ops, " ; ")))
 		}
 		writeHist(hist)
 	})
